@@ -159,5 +159,148 @@ theorem step_bOpAll_agree (desc : FieldDesc) {s : St α} (hs : StoreOKB V s) (op
   all_goals exact step_bOp_agree h desc hs _ hop
 
 end StepBStr
+
+/-! ## Gröbner machinery: congruence and closure -/
+namespace B
+open BPoly
+section Groebner
+variable {α : Type} {F F' : FOps α} {V : α → Prop} (hA : OpsAgree F F' V) (hC : Closed F V)
+include hA hC
+
+/-- optional list of polynomials valid -/
+def OptMM (V : α → Prop) (o : Option (List (BPoly α))) : Prop := ∀ l, o = some l → AllMM V l
+
+omit hA hC in
+theorem AllMM.single {f : BPoly α} (hf : AllM V f) : AllMM V [f] := fun g hg => by
+  rw [List.mem_singleton] at hg; exact hg ▸ hf
+
+omit hA hC in
+theorem AllMM.headD {l : List (BPoly α)} (hl : AllMM V l) : AllM V (l.headD []) := by
+  cases l with
+  | nil => exact nil_V
+  | cons a t => exact hl a List.mem_cons_self
+
+omit hA hC in
+theorem AllMM.getD {l : List (BPoly α)} (hl : AllMM V l) (i : Nat) : AllM V (l.getD i []) := by
+  rw [List.getD_eq_getElem?_getD]
+  cases h : l[i]? with
+  | none => exact nil_V
+  | some q => exact hl q (List.mem_of_getElem? h)
+
+omit hA hC in
+theorem AllMM.nils (l : List (BPoly α)) : AllMM V (l.map fun _ => ([] : BPoly α)) := by
+  intro q hq
+  obtain ⟨_, _, rfl⟩ := List.mem_map.1 hq
+  exact nil_V
+
+theorem sPoly_par (o : Order) {f g : BPoly α} (hf : AllM V f) (hg : AllM V g) :
+    sPoly F' o f g = sPoly F o f g ∧ OptM V (sPoly F o f g) := by
+  unfold sPoly monomialLcm
+  obtain ⟨e1, hv1⟩ := lt_par hA hC o hf
+  obtain ⟨e2, hv2⟩ := lt_par hA hC o hg
+  dsimp only
+  rw [e1, e2, hA.one]
+  have hl : AllM V [((max (ld o (BPoly.lt F o f)).1 (ld o (BPoly.lt F o g)).1,
+      max (ld o (BPoly.lt F o f)).2 (ld o (BPoly.lt F o g)).2), F.one)] := fun x hx => by
+    rw [List.mem_singleton] at hx; rw [hx]; exact hC.one
+  generalize [((max (ld o (BPoly.lt F o f)).1 (ld o (BPoly.lt F o g)).1,
+      max (ld o (BPoly.lt F o f)).2 (ld o (BPoly.lt F o g)).2), F.one)] = L at hl ⊢
+  obtain ⟨e3, hv3⟩ := quoRemLoop_par hA hC o none (AllMM.single hv1) 1000 L [[]] [] hl
+    (AllMM.single nil_V) nil_V
+  obtain ⟨e4, hv4⟩ := quoRemLoop_par hA hC o none (AllMM.single hv2) 1000 L [[]] [] hl
+    (AllMM.single nil_V) nil_V
+  rw [e3, e4]
+  cases h1 : quoRemLoop F o none [BPoly.lt F o f] 1000 L [[]] [] with
+  | none =>
+    cases quoRemLoop F o none [BPoly.lt F o g] 1000 L [[]] [] <;>
+      exact ⟨rfl, fun v h => by cases h⟩
+  | some qr1 =>
+    cases h2 : quoRemLoop F o none [BPoly.lt F o g] 1000 L [[]] [] with
+    | none => exact ⟨rfl, fun v h => by cases h⟩
+    | some qr2 =>
+      obtain ⟨q1, r1⟩ := qr1
+      obtain ⟨q2, r2⟩ := qr2
+      obtain ⟨e5, hv5⟩ := mulNoReduce_par hA hC (AllMM.headD (hv3 q1 r1 h1).1) hf
+      obtain ⟨e6, hv6⟩ := mulNoReduce_par hA hC (AllMM.headD (hv4 q2 r2 h2).1) hg
+      dsimp only
+      rw [e5, e6]
+      cases ha : mulNoReduce F (q1.headD []) f with
+      | none =>
+        cases mulNoReduce F (q2.headD []) g <;> exact ⟨rfl, fun v h => by cases h⟩
+      | some a =>
+        cases hb : mulNoReduce F (q2.headD []) g with
+        | none => exact ⟨rfl, fun v h => by cases h⟩
+        | some b =>
+          obtain ⟨e7, hv7⟩ := sub_par hA hC (hv5 a ha) (hv6 b hb)
+          dsimp only
+          rw [e7]
+          exact ⟨rfl, fun v h => by cases h; exact hv7⟩
+
+theorem sPairRems_par (o : Order) {gb : List (BPoly α)} (hgb : AllMM V gb) :
+    sPairRems F' o gb = sPairRems F o gb ∧ OptMM V (sPairRems F o gb) := by
+  unfold sPairRems
+  dsimp only
+  refine foldl_par (OptMM V) (fun x : BPoly α × Nat => AllM V x.1) _ _ (fun acc x hacc hx => ?_)
+    gb.zipIdx (some []) (fun x hx => hgb _ (List.fst_mem_of_mem_zipIdx hx))
+    (fun l h => by cases h; exact fun _ h => by cases h)
+  obtain ⟨f, i⟩ := x
+  refine foldl_par (OptMM V) (fun y : BPoly α × Nat => AllM V y.1) _ _ (fun acc y hacc hy => ?_)
+    gb.zipIdx acc (fun y hy => hgb _ (List.fst_mem_of_mem_zipIdx hy)) hacc
+  obtain ⟨g, j⟩ := y
+  dsimp only at hx hy ⊢
+  split
+  · exact ⟨rfl, hacc⟩
+  · obtain ⟨e, hv⟩ := sPoly_par hA hC o hx hy
+    rw [e]
+    cases acc with
+    | none => exact ⟨rfl, fun _ h => by cases h⟩
+    | some news =>
+      cases hs : sPoly F o f g with
+      | none => exact ⟨rfl, fun _ h => by cases h⟩
+      | some sp =>
+        obtain ⟨e2, hv2⟩ := quoRemLoop_par hA hC o none hgb divFuel sp _ [] (hv sp hs)
+          (AllMM.nils gb) nil_V
+        dsimp only
+        rw [e2]
+        cases hq : quoRemLoop F o none gb divFuel sp (gb.map fun _ => []) [] with
+        | none => exact ⟨rfl, fun _ h => by cases h⟩
+        | some qr =>
+          obtain ⟨qs, r⟩ := qr
+          dsimp only
+          split
+          · exact ⟨rfl, fun l h => by cases h; exact hacc news rfl⟩
+          · refine ⟨rfl, fun l h => ?_⟩
+            cases h
+            intro p hp
+            rcases List.mem_append.1 hp with h1 | h1
+            · exact hacc news rfl p h1
+            · rw [List.mem_singleton] at h1; rw [h1]; exact (hv2 qs r hq).2
+
+theorem buchberger_par (o : Order) : ∀ (fuel : Nat) (gb : List (BPoly α)), AllMM V gb →
+    buchberger F' o fuel gb = buchberger F o fuel gb ∧ OptMM V (buchberger F o fuel gb) := by
+  intro fuel
+  induction fuel with
+  | zero => intro gb _; exact ⟨rfl, fun _ h => by cases h⟩
+  | succ fuel ih =>
+    intro gb hgb
+    rw [buchberger, buchberger]
+    obtain ⟨e, hv⟩ := sPairRems_par hA hC o hgb
+    rw [e]
+    split
+    · exact ⟨rfl, fun _ h => by cases h⟩
+    · cases hs : sPairRems F o gb with
+      | none => exact ⟨rfl, fun _ h => by cases h⟩
+      | some news =>
+        cases news with
+        | nil => exact ⟨rfl, fun _ h => by cases h; exact hgb⟩
+        | cons a t =>
+          refine ih _ ?_
+          intro p hp
+          rcases List.mem_append.1 hp with h1 | h1
+          · exact hgb p h1
+          · exact hv _ hs p h1
+
+end Groebner
+end B
 end Tables
 end Algobra
